@@ -115,9 +115,10 @@ def assigned_names(stmts):
 
 
 from .bufs import BufMixin, Buf, BufRef, BufView, BufCopy
+from .flat import FlatMixin, FlatView, prod_term
 
 
-class Exec(BufMixin):
+class Exec(BufMixin, FlatMixin):
     def __init__(self, ctx):
         self.ctx = ctx
 
@@ -188,6 +189,8 @@ class Exec(BufMixin):
         if isinstance(a, SpecArr):
             t = a.term
             return lambda idx: z3.Select(t, *[ZI(i) for i in idx])
+        if isinstance(a, FlatView):
+            return self.flat_elem_fn(st, a)
         if isinstance(a, ArrView):
             t = st.heap[a.base.aid]
             return lambda idx, a=a, t=t: z3.Select(t, *[ZI(i) for i in a.base_index(idx)])
@@ -242,6 +245,8 @@ class Exec(BufMixin):
             return base[idx]
         if not self.is_arr(base):
             raise OutOfReach('subscript of %r' % (base,))
+        if isinstance(base, FlatView):
+            return self.flat_subscript(st, fr, base, idx, node)
         if isinstance(idx, V.SymRange):
             # fancy indexing by a range copies the rows lo..hi-1: same elements as the slice lo:hi
             idx = slice(idx.lo, idx.hi)
@@ -317,6 +322,8 @@ class Exec(BufMixin):
         r = self.buf_store(st, fr, base, idx, val, node)
         if r is not NotImplemented:
             return
+        if isinstance(base, FlatView):
+            return self.flat_store(st, fr, base, idx, val, node)
         if isinstance(base, ArrView):
             if not isinstance(idx, tuple):
                 idx = (idx,)
@@ -744,6 +751,12 @@ class Exec(BufMixin):
         if isinstance(base, V.Opaque):
             return V.Opaque()
         if self.is_arr(base):
+            if a in ('reshape', 'transpose'):
+                return FunVal('arrmethod', a, base)
+            if a == 'base':
+                if isinstance(base, (ArrView, FlatView)):
+                    return base.base
+                return None
             if a == 'shape':
                 return tuple(base.shape)
             if a == 'size':
